@@ -53,3 +53,22 @@ func hasQuantCE(e *CE) bool {
 	}
 	return false
 }
+
+func hasQuant(t *Term) bool {
+	if t.Kind == KQuant {
+		return true
+	}
+	for _, a := range t.Args {
+		if hasQuant(a) {
+			return true
+		}
+	}
+	return false
+}
+
+func (fg *FnGen) defsOrNil() map[string]*FunDef {
+	if fg == nil {
+		return nil
+	}
+	return fg.defs
+}
